@@ -96,7 +96,7 @@ impl Prop for C05T {
         "C05"
     }
     fn budget(&self, thorough: bool) -> u64 {
-        if thorough { 100_000_000 } else { 2_000_000 }
+        if thorough { 100_000_000 } else { 6_000_000 }
     }
     fn generate(&self, seed: u64, thorough: bool) -> Scenario {
         generate(seed, thorough)
